@@ -34,6 +34,7 @@ type aCt struct {
 	Pt    *aHello `json:"pt"`
 }
 type aEch struct {
+	Trail bool   `json:"trail"`
 	Type  string `json:"type"`
 	Cid   int    `json:"cid"`
 	Suite string `json:"suite"`
@@ -295,6 +296,8 @@ func sidBytes(s string) []byte {
 		return nil
 	case "s1":
 		return bytes.Repeat([]byte{0x51}, 32)
+	case "s8":
+		return bytes.Repeat([]byte{0x58}, 8)
 	}
 	h := sha256.Sum256([]byte(s))
 	return h[:]
@@ -328,6 +331,18 @@ func (s *sealer) helloBody(h *aHello, random byte, o encOpts, op string, zeroPay
 func (s *sealer) extBody(h *aHello, x aExt, o encOpts, op string, zeroPayloadLen int) []byte {
 	switch x.T {
 	case "sni":
+		switch x.V {
+		case "badtype": // name_type 1
+			l := []byte{1}
+			l = vec16(l, []byte("public.example.com"))
+			return vec16(nil, l)
+		case "two": // two host_name entries
+			l := []byte{0}
+			l = vec16(l, []byte("public.example.com"))
+			l = append(l, 0)
+			l = vec16(l, []byte("second.example.com"))
+			return vec16(nil, l)
+		}
 		return encSNI(sniName[x.V])
 	case "alpn":
 		return encALPN(alpnList[x.V])
@@ -337,6 +352,8 @@ func (s *sealer) extBody(h *aHello, x aExt, o encOpts, op string, zeroPayloadLen
 			return []byte{4, 3, 4, 3, 3}
 		case "13b":
 			return []byte{2, 3, 4}
+		case "odd": // a versions list with a dangling byte
+			return []byte{3, 3, 4, 3}
 		}
 		return []byte{4, 3, 3, 3, 2}
 	case "eoe":
@@ -385,7 +402,11 @@ func (s *sealer) extBody(h *aHello, x aExt, o encOpts, op string, zeroPayloadLen
 			if zeroPayloadLen >= 0 || e.Ct.Zero {
 				return vec16(d, make([]byte, max(zeroPayloadLen, 0)))
 			}
-			return vec16(d, s.payload(e.Ct, o, op))
+			d = vec16(d, s.payload(e.Ct, o, op))
+			if e.Trail { // bytes after the payload, inside the extension (the enclosing lengths account for them)
+				d = append(d, 0xde, 0xad, 0xbe)
+			}
+			return d
 		}
 		return nil
 	}
